@@ -69,7 +69,10 @@ def generate(seed: int, run: int, tier: str) -> dict:
     ops = []
     for _ in range(n):
         if rng.random() < p_perturb:
-            k = rng.choice(["jump", "jump", "bulk", "clear_cache", "flag_off", "flag_on", "import", "churn", "drop"])
+            k = rng.choice(["jump", "jump", "bulk", "clear_cache", "flag_off", "flag_on", "import", "churn", "drop", "failed_docs_page"])
+            if k == "failed_docs_page":
+                ops.append({"op": "failed_docs_page", "m": rng.choice(["symplyphysics.laws.dynamics.acceleration_is_force_over_mass", "symplyphysics.definitions.density_from_mass_volume", "symplyphysics.laws.kinematics.position_via_constant_acceleration_and_time", "symplyphysics.laws.thermodynamics.gas_pressure_change_from_temperature", "symplyphysics.laws.optics.lens_focus_from_object_and_image"])})
+                continue
             if k == "churn":
                 ops.append({"op": "churn", "k": rng.choice([20, 60, 150, 300]), "name": rng.choice(name_pool), "every": rng.choice([1, 3, 10])})
                 continue
@@ -238,8 +241,40 @@ def _check_record_inner(rec, where: str) -> None:
             raise Violation(where, "quantity:scale_factor", f"quantity {disp!r} reads scale factor {sf}, expected {rec['scale']}")
 
 
+def _foreign_objects(model: Model):
+    """Symbols/functions/quantities that live in symplyphysics modules imported *during this run*
+    (by an import op, or by a documentation page that was executed): objects created through the
+    API afterwards must not alias them either."""
+    import sys  # pylint: disable=import-outside-toplevel
+    import sympy as sp  # pylint: disable=import-outside-toplevel
+    from sympy.core.function import FunctionClass  # pylint: disable=import-outside-toplevel
+    base = getattr(model, "base_modules", None)
+    if base is None:
+        return []
+    out = []
+    for name in sorted(set(sys.modules) - base):
+        if not name.startswith("symplyphysics."):
+            continue
+        for attr, v in sorted(vars(sys.modules[name]).items()):
+            if hasattr(v, "display_name") and isinstance(v, (sp.Basic, FunctionClass)) and getattr(v, "__module__", None) != "builtins":
+                out.append((f"{name}.{attr}", v))
+    return out
+
+
 def _check_distinct(model: Model) -> None:
     """I1: pairwise distinct objects, distinct dict keys, unique internal names per kind."""
+    mine_ids = {id(r["obj"]) for r in model.recs}
+    mine_names = {}
+    for r in model.recs:
+        if r["kind"] != "coordsys":
+            mine_names[_internal_name(r)] = r
+    for where, fo in _foreign_objects(model):
+        if id(fo) in mine_ids:
+            continue
+        nm = str(getattr(fo, "name", ""))
+        r = mine_names.get(nm)
+        if r is not None and r["src"] is None and r["obj"] is not fo:
+            raise Violation("alias", "internal-name:library-object", f"a {r['kind']} created through the API got the generated name {nm}, which {where} (imported earlier in this process) already has")
     objs = []
     for r in model.recs:
         if r["kind"] == "coordsys":
@@ -384,6 +419,30 @@ def _final_checks(model: Model) -> list[str]:
                     raise Violation("print", f"{printer_name}:{shape_name}:{r['kind']}", f"{printer_name} of a {shape_name} {r['kind']} with display name {d!r} shows generated internal name {bad[0]!r}: {text[:200]!r}")
                 if r["kind"] != "quantity" and d not in text:
                     raise Violation("print", f"{printer_name}:{shape_name}:{r['kind']}", f"{printer_name} of a {shape_name} {r['kind']} does not show its display name {d!r}: {text[:200]!r}")
+    # Abs of every quantity is its own magnitude (and never another quantity's)
+    for r in model.recs:
+        if r["kind"] != "quantity":
+            continue
+        try:
+            a = abs(r["obj"])
+        except Exception as e:  # pylint: disable=broad-except
+            raise Violation("independence", "abs:quantity", f"abs() of quantity {r['display']!r} raised {type(e).__name__}: {str(e)[:120]}") from None
+        sf = complex(sp.N(getattr(a, "scale_factor", a)))
+        want = abs(r["scale"])
+        if abs(sf - want) > 1e-9 * max(1.0, want):
+            raise Violation("independence", "abs:quantity", f"abs() of the quantity {r['display']!r} with scale factor {r['scale']} has scale factor {sf}, expected {want}: the result belongs to another quantity")
+    # wrappers around expressions that contain applied functions and symbols
+    from symplyphysics.core.operations.symbolic import Average, FiniteDifference, ExactDifferential  # pylint: disable=import-outside-toplevel
+    inner = [t for r, t, _p, _v in terms if r["kind"] in ("function", "symbol")][:4]
+    for t in inner:
+        for wrap in (Average, FiniteDifference, ExactDifferential):
+            try:
+                text = code_str(wrap(t) / wrap(common))
+            except Exception:  # pylint: disable=broad-except
+                continue
+            bad = [m.group(0) for m in INTERNAL.finditer(text) if m.group(0) not in allowed]
+            if bad:
+                raise Violation("print", f"code_str:{wrap.__name__}", f"code_str of {wrap.__name__} around an expression with display names shows generated internal name {bad[0]!r}: {text[:200]!r}")
     # printing after the expression was rebuilt by SymPy (doit / simplify / expand / subs of an index)
     idx_i, idx_k = sp.Idx("i"), sp.Idx("k")
     rebuilt_terms = []
@@ -453,6 +512,23 @@ def _apply(op: dict, model: Model, state: dict):  # pylint: disable=too-many-bra
         clear_cache()
         f["clear_cache"] += 1
         return "clear"
+    if k == "failed_docs_page":
+        # a documentation page of a law whose source raises half-way (after importing a catalogue
+        # module and creating symbols); the caller catches the error and carries on
+        import ast as _ast  # pylint: disable=import-outside-toplevel
+        from symplyphysics.docs.parse import find_members_and_functions  # pylint: disable=import-outside-toplevel
+        from symplyphysics.docs.patch import patch_sympy_evaluate  # pylint: disable=import-outside-toplevel
+        src = ('"""\nBroken law\n==========\n"""\nfrom sympy import Eq\nfrom symplyphysics import symbols, clone_as_symbol, Symbol, Function\n'
+               f'import {op["m"]} as dep\n'
+               'first = clone_as_symbol(symbols.mass, subscript="1")\n"""\nFirst.\n"""\nsecond = Symbol("m")\n"""\nSecond.\n"""\n'
+               'law = Eq(first, second * this_name_is_not_defined)\n"""\n:laws:symbol::\n"""\n')
+        try:
+            find_members_and_functions(patch_sympy_evaluate(_ast.parse(src)))
+        except Exception:  # pylint: disable=broad-except
+            pass
+        global_parameters.evaluate = True  # the aborted page leaves the flag off; the user resets it
+        f["failed_docs_page"] = f.get("failed_docs_page", 0) + 1
+        return "failed_docs_page"
     if k == "drop":
         # the user lets go of some objects: the model forgets them, SymPy's cache is evicted and
         # the garbage collector runs, so their addresses may be reused by later creations
@@ -594,7 +670,9 @@ def _apply(op: dict, model: Model, state: dict):  # pylint: disable=too-many-bra
 def child_run(job: dict) -> dict:
     from sympy.core.parameters import global_parameters  # pylint: disable=import-outside-toplevel
     from symplyphysics.core.symbols import id_generator  # pylint: disable=import-outside-toplevel
+    import sys as _sys  # pylint: disable=import-outside-toplevel
     model = Model()
+    model.base_modules = set(_sys.modules)
     state = {"faults": {"jump": 0, "bulk": 0, "clear_cache": 0, "flag_off": 0, "import": 0, "drop": 0, "churn": 0}}
     events = []
     violation = None
